@@ -11,6 +11,8 @@ it - by transformations that are each semantics-preserving ON THEIR OWN:
   N5  t = E (t unknown to the reference, bound once, E pure, operands not modified)  ->  uses of t replaced by E
   N6  h(args) with h a new module-level helper that the reference module does not define  ->  h's body inlined (fresh names)
   N9  a, b = e1, e2           ->  a = e1 ; b = e2     (no target occurs on the right-hand side)
+  N14 if True: B -> B ; if False: .. -> (else-branch or nothing)
+  N12 e + 0, e * 1 inside indices -> e ;  N13 t = p (plain name, p not rebound afterwards): t -> p
   N11 v = A[i] (A has >= 2 axes, i integer indices): v[j, k] -> A[i, j, k], v -> A[i]   (basic indexing yields a view)
   N10 loop body / function body ending in `if C: BODY` (no else)  ->  `if not C: continue` (`return`) ; BODY
   N3  t = E ; return t        ->  return E            (t assigned once, used once, adjacent statements)
@@ -292,8 +294,31 @@ def _simplify_index_arith(func):
             break
 
 
+def _fold_constant_ifs(func):
+    """N14: `if True: BODY [else: ..]` -> BODY ; `if False: .. [else: BODY]` -> BODY (or nothing)"""
+    changed = True
+    while changed:
+        changed = False
+        for p in ast.walk(func):
+            for f in ("body", "orelse", "finalbody"):
+                b = getattr(p, f, None)
+                if not isinstance(b, list):
+                    continue
+                for i, s in enumerate(b):
+                    if isinstance(s, ast.If) and isinstance(s.test, ast.Constant) and isinstance(s.test.value, bool):
+                        repl = s.body if s.test.value else s.orelse
+                        b[i:i + 1] = repl if (repl or len(b) > 1) else [ast.copy_location(ast.Pass(), s)]
+                        changed = True
+                        break
+                if changed:
+                    break
+            if changed:
+                break
+
+
 def normalise(func):
     _Normalise().visit(func)
+    _fold_constant_ifs(func)
     _simplify_index_arith(func)
     _split_tuple_assigns(func)
     _forward_temps(func)
@@ -458,8 +483,8 @@ class Aligner:
 
     def mapping(self):
         """injective map current-local -> reference-local, most votes first; identity when unvoted.  Renaming a local onto a name that is
-        ANOTHER local of the current function (a swap / rotation of names) is only done on clear evidence: at least 3 votes and at least
-        three times the votes for keeping its own name - rules that read names must not be handed a permutation the alignment guessed."""
+        ANOTHER local of the current function (a swap / rotation of names) is only done on clear evidence: unanimous votes (>= 2, none for keeping its own name), or at least
+        3 votes and at least three times the votes for keeping its own name - rules that read names must not be handed a permutation the alignment guessed."""
         out, taken = {}, set()
         own = {}
         for (a, b), v in self.votes.items():
@@ -468,8 +493,10 @@ class Aligner:
         for (a, b), v in sorted(self.votes.items(), key=lambda kv: (-kv[1], kv[0])):
             if a in out or b in taken:
                 continue
-            if a != b and b in self.cl and (v < 3 or v < 3 * own.get(a, 0)):
-                continue
+            if a != b and b in self.cl:
+                unanimous = own.get(a, 0) == 0 and v >= 2
+                if not unanimous and (v < 3 or v < 3 * own.get(a, 0)):
+                    continue
             out[a] = b
             taken.add(b)
         return out
@@ -622,6 +649,58 @@ def inline_view_aliases(cfunc, rfunc, mapped=()):
     return done
 
 
+def inline_name_aliases(cfunc, rfunc, mapped=()):
+    """N13: `t = p` with p a plain name: t and p denote the same object, whatever is stored through either of them.  t must be a local
+    the reference does not have, bound exactly once; p must not be rebound after the definition; every use of t follows the definition in
+    the same block (or the definition is at the top level of the function)."""
+    done = []
+    rl = locals_of(rfunc) | params_of(rfunc)
+    for _ in range(8):
+        binds, _w = _written_names(cfunc)
+        casts = _cast_rebinds(cfunc)
+        cand = None
+        for p in ast.walk(cfunc):
+            for f in ("body", "orelse", "finalbody"):
+                b = getattr(p, f, None)
+                if not isinstance(b, list):
+                    continue
+                for i, s in enumerate(b):
+                    if not (isinstance(s, ast.Assign) and len(s.targets) == 1 and isinstance(s.targets[0], ast.Name) and isinstance(s.value, ast.Name)):
+                        continue
+                    t, src = s.targets[0].id, s.value.id
+                    if t == src or t in rl or t in mapped or binds.get(t, 0) != 1:
+                        continue
+                    here = (s.lineno, s.col_offset)
+                    if any(isinstance(x, ast.Name) and x.id == src and isinstance(x.ctx, (ast.Store, ast.Del)) and id(x) not in casts
+                           and (x.lineno, x.col_offset) > here for x in ast.walk(cfunc)):
+                        continue
+                    uses = [x for x in ast.walk(cfunc) if isinstance(x, ast.Name) and x.id == t and isinstance(x.ctx, ast.Load)]
+                    tail = [x for later in b[i + 1:] for x in ast.walk(later)]
+                    if not uses or (b is not cfunc.body and not all(any(u is x for x in tail) for u in uses)):
+                        continue
+                    if any((x.lineno, x.col_offset) <= here for x in uses):
+                        continue
+                    cand = (b, i, t, src)
+                    break
+                if cand:
+                    break
+            if cand:
+                break
+        if not cand:
+            break
+        b, i, t, src = cand
+        del b[i]
+        if not b:
+            b.append(ast.Pass())
+        for x in ast.walk(cfunc):
+            if isinstance(x, ast.Name) and x.id == t:
+                x.id = src
+        done.append(t)
+    if done:
+        ast.fix_missing_locations(cfunc)
+    return done
+
+
 def inline_extra_temps(cfunc, rfunc, mapped=()):
     """N5: `t = E` where t is a local that the reference does not have, t is bound once, E is a pure value expression whose operands are
     parameters or locals that are bound at most once and never stored through / mutated in place, and every use of t follows the
@@ -708,7 +787,8 @@ def canonicalise_function(cfunc, rfunc):
     m = al.mapping()
     # locals without a counterpart in the reference that merely name a pure sub-expression are expanded again (N5)
     keep = set(m.values()) | {a for a in m}
-    inl = ["view " + t for t in inline_view_aliases(cfunc, rfunc, mapped=set(m))]
+    inl = ["alias " + t for t in inline_name_aliases(cfunc, rfunc, mapped=set(m))]
+    inl += ["view " + t for t in inline_view_aliases(cfunc, rfunc, mapped=set(m))]
     inl += [t for t in inline_extra_temps(cfunc, rfunc, mapped=set(m))]
     if inl:
         ast.fix_missing_locations(cfunc)
